@@ -28,13 +28,13 @@ fn pending(ev: &serde_json::Value) {
 	}
 }
 
-const SCHEMES: &[&str] = &["s", "http", "a+b.c-d", "urn", "svn+ssh", "x-1.2"];
-const USERS: &[&str] = &["", "u", "%75", "u:p", "%40", "é", "a;b=c", "~", "%7E", "service-account-with-a-long-name-0123456789", "ééééééééééééééééé"];
+const SCHEMES: &[&str] = &["s", "http", "a+b.c-d", "urn", "svn+ssh", "x-1.2", "1a", "a:b", "é"];
+const USERS: &[&str] = &["", "u", "%75", "u:p", "%40", "é", "a;b=c", "~", "%7E", "service-account-with-a-long-name-0123456789", "ééééééééééééééééé", "a@b", "a/b", "\u{E000}", "a#"];
 const HOSTS: &[&str] = &["", "h", "%68", "ex%61mple.org", "caf%C3%A9.x", "café.x", "[v1.é]", "example.org", "1.2.3.4", "[::1]", "[1:2::3.4.5.6]", "[v7.a:b]", "%41", "é.x", "xn--e"];
-const PORTS: &[&str] = &["", "8", "080", "65535"];
-const SEGS: &[&str] = &["", "a", "b", ".", "..", "b:c", "1:c", "é", "%2F", "%2e", "@", "a;p=1", "😀", "longer-segment-name", "~", "!$&'()*+,;=", "b..", "...", ".a", "a.", "%2E%2E", "%2e%2e", ".%2E", "%2e", "é:b", "été:2024", "naïve", "ÿ£¿", "は", "%2f", "%2F"];
-const QUERIES: &[&str] = &["", "q", "a:b/c?d", "x=1&y=2", "é", "\u{E000}", "%3F", "/?"];
-const FRAGS: &[&str] = &["", "f", "a/b?c", "x?y/z:@", "é", "%23"];
+const PORTS: &[&str] = &["", "8", "080", "65535", "8a", ":1", "８"];
+const SEGS: &[&str] = &["", "a", "b", ".", "..", "b:c", "1:c", "é", "%2F", "%2e", "@", "a;p=1", "😀", "longer-segment-name", "~", "!$&'()*+,;=", "b..", "...", ".a", "a.", "%2E%2E", "%2e%2e", ".%2E", "%2e", "é:b", "été:2024", "naïve", "ÿ£¿", "は", "%2f", "%2F", "a?b", "a#b", "a/b", "\u{E000}", "%zz", "["];
+const QUERIES: &[&str] = &["", "q", "a:b/c?d", "x=1&y=2", "é", "\u{E000}", "%3F", "/?", "a#b", "%", "\u{FFFE}"];
+const FRAGS: &[&str] = &["", "f", "a/b?c", "x?y/z:@", "é", "%23", "\u{E000}", "x\u{F0000}y", "a#b", "%2"];
 
 fn pick<'a>(r: &mut StdRng, v: &'a [&'a str]) -> &'a str {
 	v.choose(r).unwrap()
